@@ -359,6 +359,16 @@ def run_unit(u, tier, keep=False):
         rc, out, err, dt = sh(cmd, timeout=u['timeout'] * (3 if tier == 'thorough' else 1),
                               mem_gb=u['mem_gb'])
         rec['t_cbmc'] = dt
+        if rc == -9 and u['backend'] == 'sat' and not u.get('no_retry'):
+            # slow queries are the unstable ones: give the other installed SAT solver one try
+            u2 = dict(u)
+            u2['backend'] = 'kissat'
+            cmd = cbmc_cmd(u2, gb)
+            rec['cmds'].append(' '.join(cmd))
+            rc, out, err, dt2 = sh(cmd, timeout=u['timeout'] * (3 if tier == 'thorough' else 1), mem_gb=u['mem_gb'])
+            rec['t_cbmc'] += dt2
+            rec['backend'] = 'sat, then kissat after a time-out'
+            dt = dt2
         if rc == -9:
             rec['reason'] = 'cbmc timeout after %ds' % int(dt)
             return rec
